@@ -5,6 +5,7 @@ package main
 import (
 	"fmt"
 	"go/token"
+	"go/types"
 	"strings"
 
 	"golang.org/x/tools/go/ssa"
@@ -269,6 +270,23 @@ func runC15(c *Ctx) {
 					}
 				}
 				r.Check("C15.cache-key", "StackCounter.Inc/cache entry stores the encoded PCs with the new counter", m.Pos(x.Pos()), okEntry, "stack{pcs: pcs, counter: ctr}")
+				// … and is remembered whatever its name looks like: from its creation, every path to the
+				// increment passes the store into c.stacks
+				isRemember := func(in ssa.Instruction) bool {
+					st, ok := in.(*ssa.Store)
+					if !ok {
+						return false
+					}
+					fa, ok := st.Addr.(*ssa.FieldAddr)
+					if !ok {
+						return false
+					}
+					_, fld, _ := fieldAddrName(fa)
+					return fld == "stacks"
+				}
+				skipped := reachesWithout(x, func(in ssa.Instruction) bool { return in == cs.(ssa.Instruction) }, isRemember)
+				r.Check("C15.cache-key", "StackCounter.Inc/every new counter is remembered", m.Pos(x.Pos()), skipped == nil,
+					"a counter that is created but not appended to c.stacks is created again by the next increment from the same stack")
 			default:
 				// a cached counter: must lie under eq(s.pcs, pcs) where the counter is s.counter of the same s
 				okEq := false
@@ -475,6 +493,42 @@ func c15DecodeResult(c *Ctx, m *Module, rule string) {
 	r := c.R
 	dec := m.Func("internal/counter", "DecodeStack")
 	n := 0
+	// a line is rewritten (its path replaced by the remembered one) exactly when its path is the
+	// ditto mark — a one-letter import path ("p.report") is a path like any other
+	nRw := 0
+	for _, in := range instrsOf(dec) {
+		st, ok := in.(*ssa.Store)
+		if !ok {
+			continue
+		}
+		if _, isEl := st.Addr.(*ssa.IndexAddr); !isEl {
+			continue
+		}
+		if b, isB := st.Val.Type().Underlying().(*types.Basic); !isB || b.Kind() != types.String {
+			continue
+		}
+		nRw++
+		isLen1, isQuote, isEq := false, false, false
+		for _, f := range factsAt(st) {
+			bo, isBo := f.Cond.(*ssa.BinOp)
+			if !isBo {
+				continue
+			}
+			d := describe(bo)
+			k, isC := constOf(bo.Y)
+			switch {
+			case bo.Op == token.EQL && f.Pol && isC && k == "1" && strings.Contains(d, "builtin:len("):
+				isLen1 = true
+			case bo.Op == token.EQL && f.Pol && isC && k == "34":
+				isQuote = true
+			case bo.Op == token.EQL && f.Pol && isC && k == "\"":
+				isEq = true
+			}
+		}
+		r.Check(rule, "DecodeStack/a line is rewritten only when its path is the ditto mark", m.Pos(st.Pos()), isEq || (isLen1 && isQuote),
+			"lines[i] = lastPath + rest must lie under len(path) == 1 && path[0] == '\"' (both)")
+	}
+	r.Check(rule, "DecodeStack/has the ditto expansion", m.Pos(dec.Pos()), nRw >= 1, fmt.Sprintf("%d", nRw))
 	for _, ex := range exitPaths(dec) {
 		n++
 		v := strip(refine(ex.vals[0], ex.facts))
